@@ -118,8 +118,9 @@ class Verifier:
         return ("gobj", canon)
 
     def may_inline(self, finfo):
-        # functions without a contract may be inlined only when explicitly allowed
-        return finfo.qual in INLINE_OK or finfo.name == "__init__" or ".<locals>." in finfo.qual
+        # a repository function without a contract is executed inline (sound: it is the real body); the evidence
+        # lists every function that was inlined into a caller
+        return True
 
     # ---- value construction ---------------------------------------------------------------------
     def field_type(self, ho, name):
@@ -338,7 +339,11 @@ class Verifier:
                 ip.use_old = True
                 w = ip.truth(ip.eval(cl.expr_ast, fr, True))
                 ip.use_old = False
-                if ctx.branch(w, "callee-raises-" + cl.name):
+                took = ctx.branch(w, "callee-raises-" + cl.name)
+                # both outcomes of the split rest on the callee's "raises exactly when" clause
+                if (c.qual, cl.name) not in ctx.always_deps:
+                    ctx.always_deps.append((c.qual, cl.name))
+                if took:
                     self.havoc_writes(ip, c, env)
                     raise Raise(cl.exc)
             for e in c.may_raise_list:
@@ -525,6 +530,9 @@ class Verifier:
         if r != z3.unsat:
             # (2) exact query
             s, r = attempt(lambda f: f, TIMEOUT_MS)
+        cross = None
+        if r == z3.unsat and os.environ.get("VERIF_TIER") == "thorough" and kind != "canary":
+            cross = cvc5_crosscheck(s, labs)
         if r == z3.unsat:
             status = "discharged"
             uc = s.unsat_core()
@@ -536,6 +544,8 @@ class Verifier:
         else:
             status = "undecided"
             extra = dict(extra or {}, reason=s.reason_unknown())
+        if cross is not None:
+            extra = dict(extra or {}, cvc5=cross)
         ob = Obligation(full, kind, clause, g, status, model, core, time.time() - t0, pathid, extra)
         ob.line = None
         ob.smt_size = len(sym.FACTS.facts) + len(ctx.pc)
@@ -979,6 +989,29 @@ class Verifier:
         return getattr(c, "frame_tag_set", None) or self.all_tags(c) | {"C16"}
 
     canaries_on = True
+
+
+def cvc5_crosscheck(solver, labs):
+    """thorough tier: the query z3 answered `unsat` is re-solved by cvc5 (independent solver); returns 'unsat',
+    'unknown' or 'sat' (a disagreement, reported as a checker fault)"""
+    import subprocess, tempfile
+    try:
+        s2 = z3.Solver()
+        s2.add(solver.assertions())
+        s2.add(labs)
+        text = "(set-logic ALL)\n" + s2.to_smt2()
+        with tempfile.NamedTemporaryFile("w", suffix=".smt2", delete=False, dir="/root/scratch" if os.path.isdir("/root/scratch") else None) as f:
+            f.write(text)
+            fn = f.name
+        try:
+            p = subprocess.run(["/usr/bin/cvc5", "--tlimit=%d" % int(os.environ.get("PYVC_CVC5_MS", "15000")), fn], capture_output=True, text=True, timeout=60)
+            out = p.stdout.strip().splitlines()
+            ans = out[0].strip() if out else "unknown"
+        finally:
+            os.unlink(fn)
+        return ans if ans in ("sat", "unsat") else "unknown"
+    except Exception as e:
+        return "unknown"
 
 
 def Oracle_dec(v):
